@@ -2,6 +2,7 @@ package main
 
 import (
 	"fmt"
+	"go/token"
 	"go/types"
 	"sort"
 	"strconv"
@@ -464,6 +465,275 @@ func runC11(c *Ctx) {
 		c.Ob("C11-R5", "typeCache accesses found", "", n >= 3, fmt.Sprintf("%d", n))
 	})
 	c.Min("C11-R5", 5)
+
+	c.Rule("C11-R6", "size prefixes are minimal big-endian: putint / intsize tables and the string-header writer", func() {
+		// putint: returns n exactly when 256^(n-1) <= i < 256^n and stores b[k] = byte(i >> 8(n-1-k))
+		pi := c.Fn("rlp:putint")
+		f := c.Facts(pi)
+		seenN := map[int64]bool{}
+		for _, rs := range f.AllReturns() {
+			n, ok := constInt(rs.Ret.Results[0])
+			if !ok || n < 1 || n > 8 {
+				c.Ob("C11-R6", "putint returns a constant width 1..8", c.Position(rs.Ret.Pos()), false, f.tr.term(rs.State, rs.Ret.Results[0], 0))
+				continue
+			}
+			seenN[n] = true
+			L := rs.State.lits
+			up := n == 8 || L[fmt.Sprintf("uint64#0 < %d", uint64(1)<<(8*uint(n)))]
+			lo := n == 1 || L[fmt.Sprintf("uint64#0 >= %d", uint64(1)<<(8*uint(n-1)))]
+			// stores in the returning block
+			want := map[string]bool{}
+			for k := int64(0); k < n; k++ {
+				want[fmt.Sprintf("%d:%d", k, 8*(n-1-k))] = true
+			}
+			got := map[string]bool{}
+			for _, ins := range rs.Ret.Block().Instrs {
+				st, ok := ins.(*ssa.Store)
+				if !ok {
+					continue
+				}
+				ia, ok := st.Addr.(*ssa.IndexAddr)
+				if !ok {
+					continue
+				}
+				k, okK := constInt(ia.Index)
+				v := stripConvAll(st.Val)
+				sh := int64(-1)
+				if v == ssa.Value(pi.Params[1]) {
+					sh = 0
+				} else if bo, ok := v.(*ssa.BinOp); ok && bo.Op == token.SHR && stripConvAll(bo.X) == ssa.Value(pi.Params[1]) {
+					if x, ok := constInt(stripConvAll(bo.Y)); ok {
+						sh = x
+					}
+				}
+				if okK && sh >= 0 {
+					got[fmt.Sprintf("%d:%d", k, sh)] = true
+				} else {
+					got["?"] = true
+				}
+			}
+			same := len(got) == len(want)
+			for k := range want {
+				if !got[k] {
+					same = false
+				}
+			}
+			c.Ob("C11-R6", fmt.Sprintf("putint width %d: taken exactly for 256^%d <= i < 256^%d and writes the %d big-endian bytes", n, n-1, n, n), c.Position(rs.Ret.Pos()), up && lo && same,
+				fmt.Sprintf("upper=%v lower=%v stores=%v", up, lo, keysOfBool(got)))
+		}
+		c.Ob("C11-R6", "putint has the eight widths", c.FnPos(pi), len(seenN) == 8, fmt.Sprintf("%d", len(seenN)))
+
+		// intsize: counts the shifts by 8 until the value is zero, starting at 1
+		is := c.Fn("rlp:intsize")
+		fi := c.Facts(is)
+		nret := 0
+		for _, rs := range fi.AllReturns() {
+			nret++
+			okShape := false
+			detail := ""
+			if ph, ok := rs.Ret.Results[0].(*ssa.Phi); ok {
+				init, step, ok2 := phiInitStepOf(c, is, ph)
+				self := fi.tr.term(nil, ph, 0)
+				// the value tested for zero is a loop phi over i with init = parameter, step = itself >> 8
+				var iv *ssa.Phi
+				for _, ins := range ph.Block().Instrs {
+					if q, ok := ins.(*ssa.Phi); ok && q != ph {
+						iv = q
+					}
+				}
+				ii, is2, ok3 := phiInitStepOf(c, is, iv)
+				ivs := ""
+				if iv != nil {
+					ivs = fi.tr.term(nil, iv, 0)
+				}
+				okShape = ok2 && ok3 && init == "1" && step == "("+self+" + 1)" && ii == "uint64#0" && is2 == "("+ivs+" >> 8)" && rs.State.lits["("+ivs+" >> 8) == 0"]
+				detail = fmt.Sprintf("size: init %s step %s; i: init %s step %s", init, step, ii, is2)
+			}
+			c.Ob("C11-R6", "intsize returns 1 + the number of times i can be shifted right by 8 before it is zero", c.Position(rs.Ret.Pos()), okShape, detail)
+		}
+		c.Ob("C11-R6", "intsize has one return", c.FnPos(is), nret == 1, fmt.Sprintf("%d", nret))
+
+		// headsize = 1 for < 56, 1 + intsize otherwise
+		hs := c.Fn("rlp:headsize")
+		fh := c.Facts(hs)
+		for _, rs := range fh.AllReturns() {
+			t := fh.tr.term(rs.State, rs.Ret.Results[0], 0)
+			L := rs.State.lits
+			ok := (t == "1" && L["uint64#0 < 56"]) || ((t == "(1 + rlp.intsize(uint64#0))" || t == "(rlp.intsize(uint64#0) + 1)") && L["uint64#0 >= 56"])
+			c.Ob("C11-R6", "headsize: 1 below 56, 1 + intsize(size) from 56", c.Position(rs.Ret.Pos()), ok, "returns "+t)
+		}
+
+		// the string-header writer: short form below 56; otherwise either putint/puthead with 0xB7, or explicit
+		// bytes whose count matches the tag and whose range literals prove minimality
+		eh := c.Fn("rlp:(*encbuf).encodeStringHeader")
+		fe := c.Facts(eh)
+		appRe := mustRe(`^store:encbuf#0\.str=append\(encbuf#0\.str, (.*)\)$`)
+		for _, rs := range fe.AllReturns() {
+			L := rs.State.lits
+			var apps []string
+			for l := range L {
+				if m := appRe.FindStringSubmatch(l); m != nil {
+					apps = append(apps, m[1])
+				}
+			}
+			sort.Strings(apps)
+			ok, how := false, "unrecognised header construction"
+			switch {
+			case len(apps) != 1:
+				how = fmt.Sprintf("%d appends to the output on one path", len(apps))
+			case L["int#0 < 56"]:
+				ok = apps[0] == "[(128 + int#0)]" || apps[0] == "[(int#0 + 128)]"
+				how = "short form " + apps[0]
+			case L["called:rlp.putint(encbuf#0.sizebuf[1:], int#0)"]:
+				hd := false
+				for _, b := range eh.Blocks {
+					for _, ins := range b.Instrs {
+						if st, isSt := ins.(*ssa.Store); isSt {
+							if ia, isIA := st.Addr.(*ssa.IndexAddr); isIA {
+								if k, isC := constInt(ia.Index); isC && k == 0 {
+									t := fe.tr.term(rs.State, st.Val, 0)
+									hd = t == "(183 + rlp.putint(encbuf#0.sizebuf[1:], int#0))" || t == "(rlp.putint(encbuf#0.sizebuf[1:], int#0) + 183)"
+									how = "long form head byte " + t
+								}
+							}
+						}
+					}
+				}
+				ok = hd && L["int#0 >= 56"] && apps[0] == "encbuf#0.sizebuf[:(rlp.putint(encbuf#0.sizebuf[1:], int#0) + 1)]"
+			case strings.HasPrefix(apps[0], "[") && strings.HasSuffix(apps[0], "]"):
+				el := splitTop(apps[0][1 : len(apps[0])-1])
+				tag, err := strconv.Atoi(el[0])
+				n := tag - 183
+				if err == nil && n >= 1 && n <= 8 && len(el) == n+1 {
+					bytesOK := true
+					for j := 1; j <= n; j++ {
+						sh := 8 * (n - j)
+						want := fmt.Sprintf("(int#0 >> %d)", sh)
+						if sh == 0 {
+							want = "int#0"
+						}
+						if el[j] != want {
+							bytesOK = false
+						}
+					}
+					up, lo := false, false
+					for l := range L {
+						var v uint64
+						if _, e := fmt.Sscanf(l, "int#0 < %d", &v); e == nil && (n == 8 || v <= uint64(1)<<(8*uint(n))) {
+							up = true
+						}
+						if _, e := fmt.Sscanf(l, "int#0 <= %d", &v); e == nil && (n == 8 || v < uint64(1)<<(8*uint(n))) {
+							up = true
+						}
+						if _, e := fmt.Sscanf(l, "int#0 >= %d", &v); e == nil && ((n == 1 && v >= 56) || (n > 1 && v >= uint64(1)<<(8*uint(n-1)))) {
+							lo = true
+						}
+						if _, e := fmt.Sscanf(l, "int#0 > %d", &v); e == nil && ((n == 1 && v >= 55) || (n > 1 && v+1 >= uint64(1)<<(8*uint(n-1)))) {
+							lo = true
+						}
+					}
+					ok = bytesOK && up && lo
+					how = fmt.Sprintf("explicit %d-byte size: bytes big-endian=%v, range proves size < 256^%d: %v, >= minimum: %v", n, bytesOK, n, up, lo)
+				}
+			}
+			pos := c.Position(rs.Ret.Pos())
+			if pos == "" {
+				pos = c.FnPos(eh)
+			}
+			c.Ob("C11-R6", "encodeStringHeader writes the canonical header on this path", pos, ok, how)
+		}
+	})
+	c.Min("C11-R6", 14)
+
+	c.Rule("C11-R7", "accepted input is consumed: no error of a reading step is discarded, and a single-byte value is taken by re-arming Kind", func() {
+		// Stream methods signal "nothing was consumed" only through their error; a decoder that drops it and accepts
+		// leaves the same bytes to be read again by the next field (value -> encoding -> different value or error).
+		rp := c.Prog.Package(c.Pkg("rlp").Types)
+		errT := types.Universe.Lookup("error").Type()
+		n := 0
+		for _, fn := range c.SrcFns {
+			if fn.Pkg != rp {
+				continue
+			}
+			for _, b := range fn.Blocks {
+				for _, ins := range b.Instrs {
+					call, ok := ins.(*ssa.Call)
+					if !ok {
+						continue
+					}
+					f := call.Call.StaticCallee()
+					if f == nil || f.Pkg != rp || f.Signature.Recv() == nil || typeShort(f.Signature.Recv().Type()) != "Stream" {
+						continue
+					}
+					res := f.Signature.Results()
+					if res.Len() == 0 || !types.Identical(res.At(res.Len()-1).Type(), errT) {
+						continue
+					}
+					n++
+					used := false
+					if refs := call.Referrers(); refs != nil {
+						for _, r := range *refs {
+							if res.Len() == 1 {
+								if _, dbg := r.(*ssa.DebugRef); !dbg {
+									used = true
+								}
+							} else if ex, ok := r.(*ssa.Extract); ok && ex.Index == res.Len()-1 && ex.Referrers() != nil && len(*ex.Referrers()) > 0 {
+								used = true
+							}
+						}
+					}
+					c.Ob("C11-R7", shortFn(fn)+": the error of "+shortFn(f)+" is examined", c.Position(call.Pos()), used, "")
+				}
+			}
+		}
+		c.Ob("C11-R7", "Stream reading calls found", "", n >= 30, fmt.Sprintf("%d", n))
+		// every function that looks at Kind() itself and accepts a single-byte value has taken it: it re-arms Kind
+		// (kind = -1) or hands the stream to a reading method (whose error it examines, above)
+		kindFn := c.Fn("rlp:(*Stream).Kind")
+		byteRe := mustRe(`^Stream#0\.Kind\(\)#0 == 0$`)
+		takeRe := mustRe(`^(store:Stream#0\.kind=-1|called:Stream#0\.\w+\(.*|.*\(Stream#0[,)].*)$`) // re-arm, a reading method, or the stream handed to another decoder
+		nb := 0
+		for _, fn := range c.SrcFns {
+			if fn.Pkg != rp || len(callSitesOf(fn, kindFn)) == 0 || fn == kindFn {
+				continue
+			}
+			res := fn.Signature.Results()
+			if res.Len() == 0 || !types.Identical(res.At(res.Len()-1).Type(), errT) {
+				continue
+			}
+			ff := c.Facts(fn)
+			for _, rs := range ff.AcceptingReturns(-1, false) {
+				isByte := false
+				for l := range rs.State.lits {
+					if byteRe.MatchString(l) {
+						isByte = true
+					}
+				}
+				if !isByte {
+					continue
+				}
+				nb++
+				took := false
+				for l := range rs.State.lits {
+					if takeRe.MatchString(l) && !strings.HasPrefix(l, "called:Stream#0.Kind(") {
+						took = true
+					}
+				}
+				c.Ob("C11-R7", shortFn(fn)+": an accepted single-byte value is consumed (Kind re-armed or read through a Stream method)", c.FnPos(fn), took, strings.Join(guardLits(rs.State), "; "))
+			}
+		}
+		c.Ob("C11-R7", "single-byte accepting paths found", "", nb >= 3, fmt.Sprintf("%d", nb))
+	})
+	c.Min("C11-R7", 30)
+}
+
+func keysOfBool(m map[string]bool) []string {
+	var out []string
+	for k := range m {
+		out = append(out, k)
+	}
+	sort.Strings(out)
+	return out
 }
 
 func isByteTyped(v ssa.Value) bool {
